@@ -123,7 +123,7 @@ class CoqError(Exception):
     pass
 
 
-_HEADER = 'From Coq Require Import List String Bool Arith ZArith.\nImport ListNotations.\n' \
+_HEADER = 'From Coq Require Import List String Bool Arith ZArith QArith.\nImport ListNotations.\n' \
           'Open Scope string_scope.\nOpen Scope list_scope.\nOpen Scope nat_scope.\n'
 
 
@@ -153,6 +153,7 @@ def coq_eval_nats(wd, imports, exprs, defs='', shard=250, timeout=600, tag='case
         with open(path, 'w') as f:
             f.write(_HEADER)
             f.write('From HolpyV Require Import %s.\n' % imports)
+            f.write('Open Scope string_scope.\nOpen Scope list_scope.\nOpen Scope nat_scope.\n')
             f.write(defs + '\n')
             f.write('Definition cs : list nat := [\n')
             f.write(';\n'.join(sh))
@@ -186,6 +187,7 @@ def coq_eval_raw(wd, imports, expr, defs='', timeout=300, tag='dbg'):
     with open(path, 'w') as f:
         f.write(_HEADER)
         f.write('From HolpyV Require Import %s.\n' % imports)
+        f.write('Open Scope string_scope.\nOpen Scope list_scope.\nOpen Scope nat_scope.\n')
         f.write(defs + '\n')
         f.write('Eval vm_compute in (%s).\n' % expr)
     rc, out, err = _run_coqc(path, timeout)
